@@ -252,7 +252,7 @@ MUTANTS = [
     {"id": "c10-basic-n-minus-1", "file": KF, "expect": "C10.R1",
      "old": "    m2 += delta * delta_n * (n - 1)\n    return m1, m2, n", "new": "    m2 += delta * delta_n * n\n    return m1, m2, n"},
     {"id": "c10-merge-min-max-swapped", "file": KF, "expect": "C10.R3",
-     "old": "    c[\"max\"][:] = np.maximum(a[\"max\"], b[\"max\"])\n    c[\"min\"][:] = np.minimum(a[\"min\"], b[\"min\"])", "new": "    c[\"max\"][:] = np.maximum(a[\"max\"], b[\"min\"])\n    c[\"min\"][:] = np.minimum(a[\"min\"], b[\"min\"])"},
+     "old": "np.maximum(a[\"max\"], b[\"max\"])),", "new": "np.maximum(a[\"max\"], b[\"min\"])),"},
     {"id": "c10-minmax-init-in-prange", "file": KF, "expect": "C10.R3",
      "old": "        count = moments[ichan][\"count\"]\n        min_val, max_val = moments[ichan][\"min\"], moments[ichan][\"max\"]\n\n        for isamp in range(nsamps):\n            val = array[isamp * nchans + ichan]\n            m1, m2, count = update_moments_basic(val, m1, m2, count)",
      "new": "        count = moments[ichan][\"count\"]\n        min_val, max_val = array[ichan], array[ichan]\n\n        for isamp in range(nsamps):\n            val = array[isamp * nchans + ichan]\n            m1, m2, count = update_moments_basic(val, m1, m2, count)"},
